@@ -8,6 +8,7 @@ import (
 	"encoding/asn1"
 	"fmt"
 	mrand "math/rand"
+	"sort"
 	"time"
 
 	"github.com/IBM/TSS/mpc/bls"
@@ -96,7 +97,7 @@ func dealPS(n, t, msgLen int) (map[uint16][]byte, []uint16, error) {
 }
 
 func unitC18deal(e common.Env, p *common.Part) {
-	p.Rule = "(i) secrets dealt with the exported SSS.Gen (BLS: one polynomial; PS: x and every y_j), shares wrapped as stored data, then for every (n,t) with 2<=t<=n<=N and EVERY subset of size >= t (PRNG order of signers) the partial signatures are aggregated with the library's Lagrange coefficients and verified under g2^P(0): BLS N=7 quick / 10 thorough, PS N=5 quick / 6 thorough; distinct key = (scheme, n, t, subset); non-trivial always; the subset space of each (scheme,n,t) is enumerated completely"
+	p.Rule = "(i) secrets dealt with the exported SSS.Gen (BLS: one polynomial; PS: x and every y_j), shares wrapped as stored data, then for every (n,t) with 2<=t<=n<=N and EVERY subset of size >= t (PRNG order of signers) the partial signatures are aggregated with the library's Lagrange coefficients and verified under g2^P(0): BLS N=7 quick / 10 thorough, PS N=5 quick / 6 thorough; distinct key = (scheme, n, t, subset); non-trivial always; the subset space of each (scheme,n,t) is enumerated completely; plus large committees with high thresholds (BLS (17,17) (18,17) (20,16) (24,15) (32,14) (40,21) (64,12) (100,11), PS (18,17) (24,15)) with the t lowest points, the t highest, everybody and PRNG subsets"
 	type job struct {
 		sch  string
 		n, t int
@@ -111,6 +112,16 @@ func unitC18deal(e common.Env, p *common.Part) {
 		for t := 2; t <= n; t++ {
 			jobs = append(jobs, job{"ps", n, t})
 		}
+	}
+	// large committees with high thresholds (evaluation points and powers beyond machine-word range): sampled subsets
+	large := map[job]bool{}
+	for _, nt := range [][2]int{{17, 17}, {18, 17}, {20, 16}, {24, 15}, {32, 14}, {40, 21}, {64, 12}, {100, 11}} {
+		j := job{"bls", nt[0], nt[1]}
+		jobs, large[j] = append(jobs, j), true
+	}
+	for _, nt := range [][2]int{{18, 17}, {24, 15}} {
+		j := job{"ps", nt[0], nt[1]}
+		jobs, large[j] = append(jobs, j), true
 	}
 	for i, j := range jobs {
 		if !e.Mine(i) || p.ViolationCount() >= 3 {
@@ -135,7 +146,23 @@ func unitC18deal(e common.Env, p *common.Part) {
 		digest := make([]byte, 32)
 		rng.Read(digest)
 		checked := 0
-		for _, sub := range subsets(parties, j.t) {
+		subs := [][]uint16(nil)
+		if large[j] {
+			// the t lowest points, the t highest, everybody, and PRNG subsets of size t..n
+			subs = append(subs, append([]uint16{}, parties[:j.t]...), append([]uint16{}, parties[j.n-j.t:]...), append([]uint16{}, parties...))
+			for k := 0; k < e.Pick(3, 12); k++ {
+				perm := rng.Perm(j.n)
+				var sub []uint16
+				for _, x := range perm[:j.t+rng.Intn(j.n-j.t+1)] {
+					sub = append(sub, parties[x])
+				}
+				sort.Slice(sub, func(a, b int) bool { return sub[a] < sub[b] })
+				subs = append(subs, sub)
+			}
+		} else {
+			subs = subsets(parties, j.t)
+		}
+		for _, sub := range subs {
 			order := append([]uint16{}, sub...)
 			rng.Shuffle(len(order), func(a, b int) { order[a], order[b] = order[b], order[a] })
 			var err error
@@ -156,7 +183,7 @@ func unitC18deal(e common.Env, p *common.Part) {
 			}
 		}
 		p.Count("subsets_checked", int64(checked))
-		p.SetExhaustive(key, true)
+		p.SetExhaustive(key, !large[j])
 		if i%5 == 0 {
 			p.Sample(map[string]interface{}{"scheme": j.sch, "n": j.n, "t": j.t, "subsets_checked": checked})
 		}
